@@ -277,6 +277,41 @@ func init() {
 		return e
 	})
 	for _, pk := range []string{"errors.", P} {
+		// errors.As: first error in the chain assignable to *target (custom As methods are not consulted)
+		reg(pk+"As", func(p *Path, fn *ssa.Function, a []Value) Value {
+			tv, ok := a[1].(IfaceV)
+			if !ok || tv.t == nil {
+				p.throwRuntime("errors: target cannot be nil")
+			}
+			pt, ok := tv.t.Underlying().(*types.Pointer)
+			if !ok {
+				p.throwRuntime("errors: target must be a non-nil pointer")
+			}
+			T := pt.Elem()
+			ptr := tv.v.(PtrV)
+			e := a[0]
+			for depth := 0; depth < 20; depth++ {
+				iv, ok := e.(IfaceV)
+				if !ok || iv.t == nil {
+					return tFalse
+				}
+				if types.IsInterface(T) {
+					if p.implements(iv, T.Underlying().(*types.Interface)) {
+						ptr.store(iv)
+						return tTrue
+					}
+				} else if types.Identical(iv.t, T) {
+					ptr.store(iv.v)
+					return tTrue
+				}
+				nx, ok := p.errorUnwrap(e)
+				if !ok {
+					return tFalse
+				}
+				e = nx
+			}
+			return tFalse
+		})
 		reg(pk+"Is", func(p *Path, fn *ssa.Function, a []Value) Value { return p.errorsIs(a[0], a[1]) })
 		reg(pk+"Unwrap", func(p *Path, fn *ssa.Function, a []Value) Value {
 			nx, ok := p.errorUnwrap(a[0])
